@@ -3,6 +3,7 @@ package rules
 import (
 	"go/ast"
 	"go/token"
+	"go/types"
 	"strings"
 
 	"verif/checker/eng"
@@ -462,6 +463,8 @@ func runC10(p *eng.Prog, r *eng.Report, tier string) {
 	// lock pairing for the session locks
 	lockPairing(c, "C10.6", []string{"xmpp.Session.stateMutex", "xmpp.Session.out", "xmpp.Session.in", "xmpp.Session.sentStanzaMutex"}, map[string]bool{"xmpp.(*Session).TokenWriter": true, "xmpp.(*Session).TokenReader": true})
 	closerTypestate(c, "C10.6")
+	c05DeferWriterAs(c, "C10.6")
+	closerFresh(c, "C10.6")
 }
 
 func containsNode(root, n ast.Node) bool {
@@ -646,4 +649,50 @@ func serveCtxReread(c *cx, id string, sv *eng.Fn) {
 		c.r.Check(id, sv, "deadline context re-read per iteration", "O: every iteration of the serve loop waits on the CURRENT Session.in.ctx (SetCloseDeadline replaces it while Serve runs)", cl.Pos(), !g.Reachable(g.After(pt), pt, nil, reads), "the loop can come back to the Done() wait without reading Session.in.ctx again: a context captured before SetCloseDeadline is cancelled by it and Serve returns early with context.Canceled")
 	}
 	c.r.Floor(id, "Done() waits in the serve loop", nw, 1)
+}
+
+// closerFresh (E-alias): every handle TokenWriter/TokenReader hands out is its
+// own allocation. The closed state lives in the handle (err field): a handle
+// stored in and returned from shared storage (a session field, a pool) is
+// re-armed by the next call, so a stale holder's write after Close goes
+// through under a lock it does not hold.
+func closerFresh(c *cx, id string) {
+	for _, typ := range []string{"xmpp.lockWriteCloser", "xmpp.lockReadCloser"} {
+		n := 0
+		for _, f := range c.allFns() {
+			g := f.Graph()
+			f.WalkBody(func(nd ast.Node) bool {
+				cl, ok := nd.(*ast.CompositeLit)
+				if !ok {
+					return true
+				}
+				if tt := f.Info().TypeOf(cl); tt == nil || eng.TypeStr(tt) != typ {
+					return true
+				}
+				n++
+				okf, why := false, "the literal is neither allocated with & nor bound to a new local"
+				switch p := g.Parent(cl).(type) {
+				case *ast.UnaryExpr:
+					okf = p.Op == token.AND
+				case *ast.AssignStmt:
+					for i, r := range p.Rhs {
+						if ast.Unparen(r) == ast.Expr(cl) && i < len(p.Lhs) {
+							if idn, isId := ast.Unparen(p.Lhs[i]).(*ast.Ident); isId {
+								if v, isVar := f.Info().ObjectOf(idn).(*types.Var); isVar && !v.IsField() && v.Parent() != v.Pkg().Scope() {
+									okf = true
+								}
+							} else {
+								why = "the literal is stored into " + f.Norm(p.Lhs[i], nil) + " (shared storage)"
+							}
+						}
+					}
+				case *ast.ValueSpec:
+					okf = f.Decl != nil
+				}
+				c.r.Check(id, f, "allocation of "+typ, "E-alias: a handle is a fresh allocation per call (its closed state is per handle)", cl.Pos(), okf, why)
+				return true
+			})
+		}
+		c.r.Floor(id, "allocations of "+typ, n, 1)
+	}
 }
